@@ -212,6 +212,17 @@ Theorem C11_handler_identity_is_senders :
 Proof. intros w cmds sched. exact (context_immutable_all_schedules _ sched). Qed.
 Print Assumptions C11_handler_identity_is_senders.
 
+(* per-command state kept in a field of the shared handler object (a seeded breaking change) is refuted: two commands of
+   different clients in flight on one handler, the first one's party check reads the second one's identity.  The positive
+   statement is C11_handler_context_immutable_all_interleavings: what a handler reads during its run is what ITS command
+   was dispatched with — the model gives a handler no other place to keep per-command state; the correspondence run checks
+   that on the real handlers with concurrent pairs (every storage-touching handler x every parking position). *)
+Theorem C11_shared_handler_field_refuted :
+  observations (ctx_run_shared ths_shared_demo [0; 0; 1; 0]%nat) = [[(3, 3, 0); (1, 1, 1)]; []]
+  /\ observations (ctx_run false ths_shared_demo [0; 0; 1; 0]%nat) = [[(3, 3, 0); (3, 3, 0)]; []].
+Proof. exact shared_handler_field_refuted. Qed.
+Print Assumptions C11_shared_handler_field_refuted.
+
 (* contexts recycled through a pool when Execute returns (a seeded breaking change) are refuted: the handler of client 1's
    one-way command, still running when client 2's command is dispatched, then reads connection 2 / client 2 / the other body *)
 Theorem C11_pooled_context_refuted :
